@@ -243,6 +243,16 @@ func (fx *fexec) externModel(key string, x *ssa.Call, f *ssa.Function, args []Va
 		return fx.slicesDelete(x, args, st, pos), true
 	case "sort.Strings":
 		return fx.sortStrings(x, args, st), true
+	case "sync/atomic.LoadInt64", "sync/atomic.LoadUint64", "sync/atomic.LoadInt32", "sync/atomic.LoadUint32":
+		// sequential semantics: the value the cell holds
+		vc.note("extern " + key + ": reads the cell (sequential semantics; concurrency is not modelled)")
+		if args[0].Loc == nil {
+			fx.panicPoint(st, eq(args[0].T, intLit(0)), "nil", "atomic load through a nil pointer", pos)
+		}
+		l := vc.locOfPtr(args[0])
+		t := vc.define(x.Name(), vc.load(st, l))
+		vc.assert(vc.typeInv(t, rt, st.alloc))
+		return Val{Ty: rt, T: t}, true
 	case "maps.Clone":
 		// a new map object holding the same keys and values (shallow); nil stays nil
 		vc.note("extern maps.Clone: a new map with the same keys and (shallowly copied) values, nil for nil (assumed from its documentation)")
@@ -354,7 +364,8 @@ func externAssigns(vc *VC, key string, cc *ssa.CallCommon) (map[string]string, b
 			comp, srt := vc.elemComp(sl.Elem())
 			return map[string]string{comp: srt}, true
 		}
-	case "bytes.Compare", "bytes.Equal", "bytes.HasPrefix", "errors.New", "fmt.Errorf", "fmt.Sprintf", "fmt.Sprint", "strings.Compare":
+	case "bytes.Compare", "bytes.Equal", "bytes.HasPrefix", "errors.New", "fmt.Errorf", "fmt.Sprintf", "fmt.Sprint", "strings.Compare",
+		"sync/atomic.LoadInt64", "sync/atomic.LoadUint64", "sync/atomic.LoadInt32", "sync/atomic.LoadUint32":
 		return map[string]string{}, true
 	}
 	if strings.HasPrefix(key, "math/big.") {
